@@ -39,6 +39,21 @@ def jac_aff(p):
     return ((x * zi * zi % P,), (y * zi * zi * zi % P,))
 
 
+def represents(res, exp):
+    """Does the Jacobian triple ``res`` represent the model point ``exp``?  For exp = identity any
+    marker (y == 0 or z == 0) is accepted; a finite exp is compared on the raw coordinates
+    (x/z^2, y/z^3), so that a finite result whose y happens to be 0 (possible only for
+    arbitrary off-curve coordinates or curves with 2-torsion) is not misread as the marker."""
+    P = CTX.P
+    x, y, z = res[0] % P, res[1] % P, res[2] % P
+    if exp is None:
+        return y == 0 or z == 0
+    if z == 0:
+        return False
+    zi = pow(z, -1, P)
+    return ((x * zi * zi % P,), (y * zi * zi * zi % P,)) == exp
+
+
 def pt2(t):
     P = CTX.P
     if t[0] % P == 0 and t[1] % P == 0:
@@ -102,7 +117,7 @@ def h_jdouble(a, k, res, exc):
     src = jac_aff(p)
     exp = affine_law(src, src)
     rec.path("secp.jacobian_double:" + ("identity" if src is None else "finite"))
-    rec.check("M-secp.jdouble", jac_aff(res) == exp, "jdouble", "jacobian_double does not represent the affine doubling", case=case,
+    rec.check("M-secp.jdouble", represents(res, exp), "jdouble", "jacobian_double does not represent the affine doubling", case=case,
               facts=_facts("jacobian_double", "value"), expected=exp, observed=jac_aff(res))
 
 
@@ -128,7 +143,7 @@ def h_jadd(a, k, res, exc):
     else:
         path = "generic"
     rec.path("secp.jacobian_add:" + path)
-    rec.check("M-secp.jadd", jac_aff(res) == exp, "jadd:" + path, "jacobian_add does not represent the affine sum (%s)" % path, case=case,
+    rec.check("M-secp.jadd", represents(res, exp), "jadd:" + path, "jacobian_add does not represent the affine sum (%s)" % path, case=case,
               facts=_facts("jacobian_add", "value", path=path), expected=exp, observed=jac_aff(res))
 
 
@@ -143,7 +158,7 @@ def h_jmul(a, k, res, exc):
     if src is not None and not CTX.E.on_curve(src):
         return
     exp = CTX.E.mul(src, n % CTX.N)
-    rec.check("M-secp.jmul", jac_aff(res) == exp, "jmul", "jacobian_multiply(P, n) != (n mod N) P", case=case,
+    rec.check("M-secp.jmul", represents(res, exp), "jmul", "jacobian_multiply(P, n) != (n mod N) P", case=case,
               facts=_facts("jacobian_multiply", "value"), expected=exp, observed=jac_aff(res))
 
 
